@@ -46,6 +46,35 @@ def folds_case(model, c, f, depth=0):
     return None
 
 
+def case_patterns(name):
+    alt = ''.join(ch.upper() if i % 2 else ch.lower() for i, ch in enumerate(name))
+    alt2 = ''.join(ch.lower() if i % 2 else ch.upper() for i, ch in enumerate(name))
+    first = name[:1].swapcase() + name[1:]
+    last = name[:-1] + name[-1:].swapcase()
+    return sorted({name, name.lower(), name.upper(), name.title(), name.swapcase(), name.capitalize(), alt, alt2, first, last})
+
+
+def name_check_table(c, f, name):
+    """spellings of the canonical name (all case patterns of case_patterns) that the class's _check_name rejects, decided by
+    evaluating _check_name and the helpers it calls (sa.miniexec); None when the code leaves the evaluable subset"""
+    from ..miniexec import Evaluator, Raised, Unsupported, class_call_hook
+    if f is None:
+        return None
+    hook = class_call_hook(c)
+    params = [a.arg for a in f.node.args.args if a.arg not in ('self', 'cls')]
+    if len(params) != 1:
+        return None
+    rejected = []
+    for v in case_patterns(name):
+        try:
+            Evaluator({params[0]: v}, hook, None).function(f.node)
+        except Raised:
+            rejected.append(v)
+        except Unsupported:
+            return None
+    return rejected
+
+
 def check(ctx, report):
     model, it = ctx.model, ctx.interp
     with open(os.path.join(HERE, 'specs', 'text.json')) as f:
@@ -77,12 +106,20 @@ def check(ctx, report):
         f = c.resolve('_check_name')
         report.count('C18.R1')
         report.touch(f)
-        r = folds_case(model, c, f)
-        if r is False:
+        rejected = name_check_table(c, f, name)
+        if rejected is None:
+            # outside the evaluable subset: fall back to the syntactic classification
+            r = folds_case(model, c, f)
+            if r is False:
+                report.add('C18.R1', '%s@name[%s]' % (c.construct, name),
+                           'component name %r is compared case-sensitively; %s' % (name, insens[c.module.name]))
+            else:
+                report.undecided.append('%s._check_name: case handling not tabulable (syntactic verdict %s)' % (c.name, r))
+        elif rejected:
             report.add('C18.R1', '%s@name[%s]' % (c.construct, name),
-                       'component name %r is compared case-sensitively; %s' % (name, insens[c.module.name]))
+                       'component name %r is not recognised in the spelling(s) %s; %s' % (name, rejected[:4], insens[c.module.name]))
         else:
-            report.sample({'rule': 'C18.R1', 'class': c.name, 'name': name, 'case_insensitive': r}, 8)
+            report.sample({'rule': 'C18.R1', 'class': c.name, 'name': name, 'spellings_accepted': len(case_patterns(name))}, 8)
     # header field names: enum must be the case-insensitive kind and the parsed name must be lower-cased / folded
     hn = model.cls('HttpHeaderFieldName')
     report.count('C18.R1')
@@ -111,6 +148,7 @@ def check(ctx, report):
         se = kw.get('skip_empty')
         if not (isinstance(se, ast.Constant) and se.value is True):
             report.add('C18.R2', nvl.construct + '@skip-empty', 'empty list elements must be skipped (skip_empty=True)')
+    whitespace_tabulation(ctx, report, spec)
     # sibling agreement on the value terminator
     terms = {}
     for cname in ('HttpHeaderFieldParsedBase', 'HttpHeaderFieldUnparsed'):
@@ -163,3 +201,72 @@ def folds_case_eq(f):
         if '.lower()' in l and '.lower()' in r:
             return True
     return False
+
+
+def whitespace_tabulation(ctx, report, spec):
+    """ParserText._parse_string_until_separator evaluated (sa.miniexec) on ``item + <whitespace run> + separator`` for
+    every run of up to four characters over the optional whitespace alphabet: the item handed on must end before the
+    whole run, whatever the order of spaces and tabs in it"""
+    import itertools
+    from ..miniexec import Evaluator, Unsupported, Raised
+    pt = ctx.model.cls('ParserText')
+    f = pt.methods.get('_parse_string_until_separator')
+    if f is None:
+        report.error('C18.R2: ParserText._parse_string_until_separator vanished')
+        return
+    report.touch(f)
+    ws = spec['optional_whitespace']
+    seen = {}
+
+    def hook(n, ev):
+        d = ast.unparse(n.func)
+        if d == 'six.ensure_binary':
+            v = ev.ev(n.args[0])
+            return v.encode('ascii') if isinstance(v, str) else bytes(v)
+        if d == 'six.int2byte':
+            return bytes([ev.ev(n.args[0])])
+        if d == 'six.iterbytes':
+            return list(bytes(ev.ev(n.args[0])))
+        if d == 'self._apply_item_class':
+            args = [ev.ev(a) for a in n.args]
+            seen['range'] = (args[1], args[2])
+            return ('item', args[1], args[2])
+        if d == 'type':
+            return 'type'
+        return NotImplemented
+    item = b'max-age=1'
+    params = [a.arg for a in f.node.args.args if a.arg != 'self']
+    bad = []
+    try:
+        for k in range(0, 5):
+            for run in itertools.product(ws, repeat=k):
+                report.count('C18.R2')
+                w = ''.join(run).encode('ascii')
+                for tail, may_end in ((b';' + b' preload', False), (b'', True)):
+                    data = item + w + tail
+                    env = dict(zip(params, ['v', 0, [';'], str, None, may_end, ws]))
+                    seen.clear()
+
+                    def names(name, data=data):
+                        if name == 'self._parsable':
+                            return data
+                        if name == 'self._encoding':
+                            return 'ascii'
+                        raise Unsupported('free name %s' % name)
+                    ev = Evaluator(env, hook, names)
+                    try:
+                        ev.function(f.node)
+                    except Raised as e:
+                        bad.append((w, 'raises %s' % e.what))
+                        continue
+                    if seen.get('range') != (0, len(item)):
+                        bad.append((w, 'item ends at offset %s' % (seen.get('range') or ('?', '?'))[1]))
+    except Unsupported as e:
+        report.add('C18.R2', f.construct + '@tabulation', 'the separator scanner left the subset the tabulation understands: %s' % e)
+        return
+    if bad:
+        w, what = bad[0]
+        report.add('C18.R2', f.construct + '@whitespace-run',
+                   '%d whitespace runs before a separator are not stripped completely, e.g. %r: %s (item is %d bytes)' % (len(bad), w.decode(), what, len(item)))
+    else:
+        report.sample({'rule': 'C18.R2', 'whitespace_runs_tabulated': sum(len(ws) ** k for k in range(5)), 'alphabet': ws})
